@@ -136,7 +136,7 @@ var insChars = []string{"/", ".", "_", "0", "a", "\n", " ", ":"}
 func (e *Env) MutationJobs(scs []Scn, thorough bool, rng *rand.Rand) []Job {
 	var jobs []Job
 	for _, s := range scs {
-		if s.Role != "client" || s.Fault != "none" || !s.Valid || s.Huge {
+		if s.Role != "client" || s.Fault != "none" || !s.Valid || s.Huge || s.Remover == "nobody" {
 			continue
 		}
 		if !e.HasFam(s.Fam) {
